@@ -129,9 +129,28 @@ func genCrashCfg(r *rng, tier string, prop string) CrashCfg {
 		c.CleanRestartInSetup = false
 		c.MaxImages = 80
 	}
+	if (!c.Pressure && r.Chance(map[string]float64{"thorough": 0.04}[tier]+0.015)) || os.Getenv("VERIF_FORCE_BIGTXN") != "" {
+		c.Pressure = false
+		// log buffer wrap: one transaction writes more log than the 528 KB log buffer holds without any
+		// flush in between (pool large enough that nothing is evicted): the buffer is swapped and written
+		// in the middle of a statement, crash points and torn tails fall inside that write
+		c.BigTxn = true
+		c.Tables = c.Tables[:1]
+		c.Tables[0].Cols = []Col{{"k", TInt}, {"v", TInt}, {"s", TVarchar}}
+		c.Tables[0].Wide = 200
+		c.Frames = 640
+		c.InitRows = 1300 + r.Intn(500)
+		c.Slots = 1
+		c.PAuto = 0
+		c.PCheckpt = 0
+		c.NOps = 4 + r.Intn(3)
+		c.CleanRestartInSetup = false
+		c.MaxImages = 40
+		c.TornPages = false
+	}
 	// tables created in the middle of the history (crash points inside and around CREATE TABLE): the
 	// bulk of the C10 runs, a fraction of the others
-	if !c.Pressure && (prop == "C10" || r.Chance(0.15)) {
+	if !c.Pressure && !c.BigTxn && (prop == "C10" || r.Chance(0.15)) {
 		nl := 1 + r.Intn(3)
 		for i := 0; i < nl; i++ {
 			ts := TableSpec{Name: fmt.Sprintf([]string{"u%d", "u%d", "U%d", "Ux%d"}[r.Intn(4)], i), Cols: []Col{{"k", TInt}, {"v", TInt}}, Wide: []int{8, 30, 120}[r.Intn(3)]}
@@ -188,6 +207,15 @@ func genOp(r *rng, c *CrashCfg, e *Exec, kg *keyGen) Op {
 	}
 	if c.Pressure {
 		pEnd = 0.1
+	}
+	if c.BigTxn {
+		if n >= 1 && r.Chance(0.6) {
+			pEnd = 1
+		} else {
+			// touch every row: old and new image of ~230-byte rows, > 528 KB of log per statement
+			all := &Pred{Logic: "OR", L: &Pred{Col: "k", Op: ">=", Val: int32(0)}, R: &Pred{Col: "k", Op: "<", Val: int32(0)}}
+			return Op{T: t, Kind: "stmt", Stmt: &Stmt{Kind: "update", Table: c.Tables[0].Name, Set: []SetItem{{"v", int32(5000 + r.Intn(1000))}}, Where: all}}
+		}
 	}
 	if r.Chance(pEnd) {
 		if r.Chance(c.PAbort) {
